@@ -45,13 +45,21 @@ var concPkgs = map[string]bool{
 
 // files in which an unsupported concurrency construct is a hard error
 var coreFiles = map[string]bool{
-	"internal/auth/circuit/breaker.go":           true,
-	"internal/pkg/singleflight/singleflight.go":  true,
-	"internal/pkg/groups/fillcache.go":           true,
-	"internal/pkg/groups/localcache.go":          true,
-	"internal/auth/providers/group_cache.go":     true,
+	"internal/auth/circuit/breaker.go":                    true,
+	"internal/pkg/singleflight/singleflight.go":           true,
+	"internal/pkg/groups/fillcache.go":                    true,
+	"internal/pkg/groups/localcache.go":                   true,
+	"internal/auth/providers/group_cache.go":              true,
 	"internal/proxy/providers/singleflight_middleware.go": true,
 	"internal/auth/providers/singleflight_middleware.go":  true,
+}
+
+// files outside the concurrency packages that only get statement-granularity scheduling points
+// (their locks, goroutines and channels stay real): the request handlers, so that two requests
+// running through the real handler chain can be interleaved between unsynchronised statements
+var yieldOnlyFiles = map[string]bool{
+	"internal/proxy/oauthproxy.go":   true,
+	"internal/auth/authenticator.go": true,
 }
 
 type stats struct {
@@ -218,6 +226,16 @@ func rewriteFile(path, rel string, st *stats) ([]byte, bool) {
 			}
 		}
 	}
+	if yieldOnlyFiles[filepath.ToSlash(rel)] {
+		r := &concRewriter{fset: fset, rel: rel, core: true, yieldOnly: true, st: st}
+		r.file(f)
+		if r.changed {
+			changed = true
+			f.Comments = nil
+			f.Doc = nil
+			addImports = append(addImports, `verifvsched "`+shimBase+`sched"`)
+		}
+	}
 	if !changed {
 		return nil, false
 	}
@@ -262,6 +280,7 @@ type concRewriter struct {
 	changed   bool
 	usedSched bool
 	usedChan  bool
+	yieldOnly bool
 }
 
 func (r *concRewriter) unsupported(n ast.Node, what string) bool {
@@ -286,13 +305,16 @@ func (r *concRewriter) file(f *ast.File) {
 		case *ast.CommClause:
 			x.Body = r.stmts(x.Body)
 		case *ast.CallExpr:
+			if r.yieldOnly {
+				break
+			}
 			if id, ok := x.Fun.(*ast.Ident); ok && id.Name == "close" && id.Obj == nil && len(x.Args) == 1 {
 				x.Fun = sel("verifvchan", "Close")
 				r.usedChan, r.changed = true, true
 				r.st.Closes++
 			}
 		case *ast.UnaryExpr:
-			if x.Op == token.ARROW {
+			if x.Op == token.ARROW && !r.yieldOnly {
 				// a receive used as a value; statement-form receives were already replaced
 				r.unsupported(x, "receive used as a value")
 			}
@@ -337,6 +359,9 @@ func (r *concRewriter) stmts(list []ast.Stmt) []ast.Stmt {
 
 // stmt returns a replacement for s, or nil to keep it.
 func (r *concRewriter) stmt(s ast.Stmt) ast.Stmt {
+	if r.yieldOnly {
+		return nil
+	}
 	switch x := s.(type) {
 	case *ast.GoStmt:
 		// go f(a, b)  =>  { _vf := f; _va0 := a; _va1 := b; sched.Go(func() { _vf(_va0, _va1) }) }
